@@ -91,7 +91,18 @@ fn process_request_obj(request: &Request, dbs: &Arc<Databases>, client: &mut Cli
             &dbs,
             &client,
             &key,
-            &|_db| remove_key(&key, _db),
+            &|_db| {
+                let respose = remove_key(&key, _db);
+                // Like a write, a remove issued on a secondary has to reach the primary: without
+                // it the key stays live on every other node
+                if !dbs.is_primary() {
+                    send_message_to_primary(
+                        get_replicate_remove_message(_db.name.to_string(), key.clone()),
+                        dbs,
+                    );
+                }
+                respose
+            },
             PermissionKind::Remove,
         ),
 
